@@ -18,6 +18,9 @@ import (
 
 type c13Case struct {
 	Pattern string `json:"pattern"`
+	// List (optional): the pattern is configured together with these other patterns of the documented form
+	// (variants of it on the same host with other schemes and ports, and unrelated ones), in this order
+	List []string `json:"list,omitempty"`
 	Valid   bool   `json:"valid_by_construction"`
 	Defect  string `json:"defect,omitempty"`
 	Shape   string `json:"shape,omitempty"`
@@ -442,9 +445,79 @@ func c13Run(r *Run, l *Local, c c13Case) {
 	}
 }
 
+// c13RunList: patterns of the documented form stay accepted, and allowed verbatim, when configured TOGETHER - in
+// particular several patterns on one host with different schemes and ports in any order
+// (lesson of seeded change C13-h: per-host scheme/port tables that get out of step).
+func c13RunList(r *Run, l *Local, list []string) {
+	l.curA = list
+	l.evals++
+	cfg := cors.Config{Origins: append([]string(nil), list...)}
+	cfg.DangerouslyTolerateSubdomainsOfPublicSuffixes = true
+	cfg.DangerouslyTolerateInsecureOrigins = true
+	mw, err := cors.NewMiddleware(cfg)
+	if err != nil {
+		r.Violate("valid-rejected", "grammar/NewMiddleware", fmt.Sprintf("list of %d patterns of the documented form rejected: %v", len(list), truncate(err.Error(), 300)), c13Case{Pattern: list[0], List: list, Valid: true})
+		return
+	}
+	for _, p := range list {
+		if strings.Contains(p, "*") {
+			continue
+		}
+		o := serve(mw, actualReq("GET", p))
+		l.counters["self_match_probes_in_lists"]++
+		if v, ok := o.first(hACAO); !ok || v != p {
+			r.Violate("self-match-refused", "grammar/self-match", fmt.Sprintf("accepted wildcard-free pattern %q presented verbatim as Origin is not allowed when configured together with %d other patterns: %s", truncate(p, 300), len(list)-1, truncate(o.String(), 300)), c13Case{Pattern: p, List: list, Valid: true})
+			return
+		}
+	}
+}
+
+// c13Variants: the shape with other schemes and other ports on the same host
+func c13Variants(rng *rand.Rand, s c13Shape, n int) []c13Shape {
+	var out []c13Shape
+	for i := 0; i < n; i++ {
+		v := s
+		if rng.IntN(3) > 0 {
+			switch rng.IntN(4) {
+			case 0:
+				v.scheme = choose(rng, c13Schemes)
+			case 1:
+				v.scheme = "http"
+			case 2:
+				v.scheme = genScheme(rng, 1+rng.IntN(6))
+			default:
+				v.scheme = "https"
+			}
+			if v.kind != "domain" && v.scheme == "https" {
+				v.scheme = "http"
+			}
+		}
+		switch rng.IntN(6) {
+		case 0:
+			v.port = ""
+		case 1:
+			v.port = ":*"
+		case 2:
+			v.port = ":65535"
+		case 3:
+			v.port = ":1"
+		case 4:
+			v.port = ":" + strconv.Itoa(1+rng.IntN(65535))
+		}
+		if (v.scheme == "http" && v.port == ":80") || (v.scheme == "https" && v.port == ":443") {
+			v.port = ":8080"
+		}
+		if rng.IntN(6) == 0 && v.kind == "domain" && !v.trailing && len(v.host) <= 251 {
+			v.subs = !v.subs
+		}
+		out = append(out, v)
+	}
+	return out
+}
+
 func TestVerif_C13(t *testing.T) {
 	r := newRun(t, "C13")
-	r.Rule("valid side: grammar-based generator (scheme [a-z][a-z0-9+.-]{0,63} != file; LDH domains with every total length 1..253 and label lengths 1..63, valid A-labels, optional trailing dot; canonical dotted-quad; RFC 5952 IPv6 from an independent formatter; `*.` before domains <= 251 bytes; port none / canonical 1-65535 except the scheme default / `*`; all maxima at once), each accepted pattern without wildcard also presented verbatim as Origin. " +
+	r.Rule("valid side: grammar-based generator (scheme [a-z][a-z0-9+.-]{0,63} != file; LDH domains with every total length 1..253 and label lengths 1..63, valid A-labels, optional trailing dot; canonical dotted-quad; RFC 5952 IPv6 from an independent formatter; `*.` before domains <= 251 bytes; port none / canonical 1-65535 except the scheme default / `*`; all maxima at once), each accepted pattern without wildcard also presented verbatim as Origin; every fourth generated pattern also configured together with 1-6 variants of it on the same host (other schemes, other ports, `*.`) and 0-2 unrelated patterns in PRNG order, every wildcard-free member presented verbatim. " +
 		"invalid side: every documented defect applied to every generated valid shape (whitespace, path, query, fragment, userinfo, empty/zero/over-range/over-long/leading-zero/default/partial-wildcard port, file, null, upper-case or Unicode host, misplaced wildcard, wildcard before IP, non-canonical/zoned/IPv4-mapped/unbracketed IP, label > 63, domain > 253). " +
 		"non-trivial = every generated string (each is either a member of the documented language or carries a named defect); distinct by hash of the string")
 	r.Assume("grey zones are not generated: https with an IP host, `_`, hyphens in label positions 3-4, upper-case scheme, last label starting with a digit, `*.` + 251-byte base + trailing dot")
@@ -452,7 +525,11 @@ func TestVerif_C13(t *testing.T) {
 	var rc c13Case
 	if r.LoadReplay(nil, &rc) {
 		l := r.newLocal(0)
-		c13Run(r, l, rc)
+		if len(rc.List) > 0 {
+			c13RunList(r, l, rc.List)
+		} else {
+			c13Run(r, l, rc)
+		}
 		r.merge(l)
 		r.Finish(0)
 		return
@@ -575,6 +652,19 @@ func TestVerif_C13(t *testing.T) {
 			l.NontrivialKey(c.Pattern)
 			if l.Batch == 0 && i < 2 {
 				l.Sample("valid", c)
+			}
+			if i%4 == 0 { // the pattern together with 1..6 variants on the same host and 0..2 unrelated patterns, in PRNG order
+				shapes := append([]c13Shape{s}, c13Variants(rng, s, 1+rng.IntN(6))...)
+				for k := rng.IntN(3); k > 0; k-- {
+					shapes = append(shapes, genValidShape(rng))
+				}
+				var list []string
+				for _, v := range shuffled(rng, shapes) {
+					list = append(list, v.String())
+				}
+				c13RunList(r, l, list)
+				l.NontrivialKey(strings.Join(list, " "))
+				l.counters["lists"]++
 			}
 			for j, d := range defectsOf(rng, s) {
 				c13Run(r, l, d)
